@@ -84,6 +84,7 @@ type tcase struct {
 	V     string          `json:"v"`
 	Side  string          `json:"side"`
 	Kink  bool            `json:"kink"`
+	Why   string          `json:"why"`
 	Pmf   []rat           `json:"pmf"`
 	Scale json.RawMessage `json:"scale"`
 	Tail  rat             `json:"tail"`
@@ -336,6 +337,7 @@ func replayNew(f *family, c *tcase) {
 			if pm == "" && err == nil {
 				s := baseSig(c, tt.name)
 				s["what"] = "ctor_accepts_invalid"
+				s["why"] = c.Why
 				mismatch(s, caseDetail(c, f))
 			}
 			continue
@@ -439,6 +441,7 @@ func replaySet(f *family, c *tcase) {
 			if pm == "" && err == nil {
 				s := baseSig(c, tt.name)
 				s["what"] = "set_accepts_invalid"
+				s["why"] = c.Why
 				mismatch(s, caseDetail(c, f))
 			}
 			continue
